@@ -359,9 +359,8 @@ class NegateExpression(UnaryExpression):
         if inner.startswith("-") or _leads_with_literal_power(child):
             group = True
         # The parser reads "-a / b * c" as "-a / (b * c)"
-        if isinstance(child, DivideExpression) and isinstance(
-            self.parent, (MultiplyExpression, DivideExpression)
-        ):
+        mult_div = (MultiplyExpression, DivideExpression)
+        if isinstance(child, mult_div) and isinstance(self.parent, mult_div):
             group = group or self.parent.left is self
         if group:
             inner = f"({inner})"
